@@ -1,0 +1,18 @@
+//go:build verif
+// +build verif
+
+package tx
+
+import (
+	pb "github.com/xuperchain/xupercore/bcs/ledger/xledger/xldgpb"
+)
+
+// VerifPackingGraph returns the graph GetUnconfirmedTx hands to TopSortDFS.
+func (t *Tx) VerifPackingGraph() (map[string]*pb.Transaction, TxGraph, error) {
+	txMap, txGraph, _, err := t.SortUnconfirmedTx()
+	if err != nil {
+		return nil, nil, err
+	}
+	addReadWriteOrderEdges(txMap, txGraph)
+	return txMap, txGraph, nil
+}
